@@ -636,7 +636,7 @@ def oracle_spec(case, ires):
     return []
 
 
-def frame_consistent(a):
+def frame_consistent(a, unused_pointer=False):
     """the request is one the standard defines: fields in range, construction rule of the right family for
     the requested frame type, pointer supplied exactly when the standard has one, header kind agrees with
     the truncated flag, OCF flag agrees with the presence of a 4-octet OCF."""
@@ -650,7 +650,13 @@ def frame_consistent(a):
         return False
     if ft != 2 and (ft == 0) != (r < 3):
         return False
-    if bool(has) != has_pointer(r, tr) or (has and not 0 <= fhp <= 65535):
+    if has and not 0 <= fhp <= 65535:
+        return False
+    if unused_pointer:
+        # a pointer is supplied although the standard (and pack) has none for this rule
+        if not has or has_pointer(r, tr):
+            return False
+    elif bool(has) != has_pointer(r, tr):
         return False
     has_ocf = bool(ocf and ocf[0])
     if has_ocf and len(ocf) != 5:
@@ -742,6 +748,11 @@ def oracle(case, ires, sres):
             exp_has = ft != 1 and has_pointer(r, bool(tr))
             if exp != raw[:ex] or size != ex or bool(has) != exp_has:
                 return ("C17/TransferFrameDataField.unpack/fields", "raw=%s exact_len=%d -> %s" % (raw, ex, ires))
+        return None
+    if op == 1621 and frame_consistent(a, unused_pointer=True):
+        if not err and ires[2] != [len(ires[1])]:
+            return ("C17/TransferFrame.len/unused-pointer-counted",
+                    "pointer supplied with a rule that has none: len() = %s, packed size %d (%s)" % (ires[2], len(ires[1]), a[:3]))
         return None
     if op in (1621, 1623):
         if not frame_consistent(a):
